@@ -3,6 +3,7 @@ package packet
 import (
 	"bytes"
 
+	bnet "github.com/bio-routing/bio-rd/net"
 	"github.com/bio-routing/bio-rd/protocols/isis/types"
 )
 
@@ -275,6 +276,66 @@ func VC30_RoundTripLSP() {
 	cp := l.Copy()
 	vAssert(cp.SequenceNumber == l.SequenceNumber, "C30.copy.seq")
 	vAssert(len(cp.TLVs) == len(l.TLVs), "C30.copy.tlvs")
+}
+
+// every TLV kind bio-rd itself emits round-trips through Serialize -> readTLV, including the empty shapes
+// (an IPv6-only interface emits an IP interface address TLV with no address)
+func VC30_RoundTripTLV() {
+	var t TLV
+	k := vParam("kind")
+	switch k {
+	case 0:
+		n := vChoice(3)
+		addrs := make([]*bnet.Prefix, n)
+		for i := range addrs {
+			addrs[i] = bnet.NewPfx(bnet.IPv4(ndU32()), 32).Ptr()
+		}
+		t = NewIPInterfaceAddressesTLV(addrs)
+	case 1:
+		n := vChoice(3)
+		ps := make([]uint8, n)
+		for i := range ps {
+			ps[i] = ndU8()
+		}
+		x := NewProtocolsSupportedTLV(ps)
+		t = &x
+	case 2:
+		n := vChoice(3)
+		as := make([]types.AreaID, n)
+		for i := range as {
+			as[i] = types.AreaID{ndU8(), ndU8(), ndU8()}
+		}
+		t = NewAreaAddressesTLV(as)
+	case 3:
+		n := vChoice(3)
+		t = NewDynamicHostnameTLV(ndBytes(2)[:n])
+	case 4:
+		t = c30EntriesTLV(vChoice(3))
+	case 5:
+		t = NewP2PAdjacencyStateTLV(ndU8(), ndU32())
+	}
+	buf := bytes.NewBuffer(nil)
+	t.Serialize(buf)
+	want := append([]byte(nil), buf.Bytes()...)
+	d, err := readTLV(buf)
+	vReach("roundtrip")
+	vAssert(err == nil, "C30.rt.tlv.decodes")
+	if err != nil {
+		return
+	}
+	vAssert(buf.Len() == 0, "C30.rt.tlv.consumed")
+	vAssert(d.Type() == t.Type(), "C30.rt.tlv.type")
+	vAssert(d.Length() == t.Length(), "C30.rt.tlv.length")
+	// re-serialising the decoded TLV gives the same bytes
+	buf2 := bytes.NewBuffer(nil)
+	d.Serialize(buf2)
+	got := buf2.Bytes()
+	vAssert(len(got) == len(want), "C30.rt.tlv.reserialize.len")
+	if len(got) == len(want) {
+		for i := range want {
+			vAssert(got[i] == want[i], "C30.rt.tlv.reserialize.bytes")
+		}
+	}
 }
 
 func VC30_Twin() {
